@@ -94,10 +94,10 @@ func (r *c11Runner) waitCall(c int, d time.Duration) bool {
 // deadline; after a few of them the enumeration of that family stops (the remaining runs would only
 // wait).  A family is not stopped by the deadlines of another one: a change may make the runs of
 // one family wait (without any oracle failing) and break the property only in another.
-var c11Hung [3]int32
+var c11Hung [4]int32 // (3: the large frames of c11large.go)
 
 func c11HungTotal() int32 {
-	return atomic.LoadInt32(&c11Hung[0]) + atomic.LoadInt32(&c11Hung[1]) + atomic.LoadInt32(&c11Hung[2])
+	return atomic.LoadInt32(&c11Hung[0]) + atomic.LoadInt32(&c11Hung[1]) + atomic.LoadInt32(&c11Hung[2]) + atomic.LoadInt32(&c11Hung[3])
 }
 
 // c11HungFail counts the hung runs in which a property oracle failed as well.
@@ -259,7 +259,7 @@ func (r *c11Runner) frame(step c11Step, pos int) {
 	if step.owner == "call" {
 		id = r.callID[step.idx]
 	}
-	frs := c11Split(c11Frame(step.owner, step.idx, step.mtype, id), step.frags)
+	frs := c11Split(c11StepFrame(step, id), step.frags)
 	term := c11MsgTerm(step.owner, step.idx, step.mtype)
 	inside := !r.faulted && r.f.pos == pos && r.f.frag > 0
 	for i, fr := range frs {
